@@ -25,3 +25,11 @@ func init() {
 	}
 	props["C18"] = propCfg{Level: "model_checking", Race: true, Rule: ruleA + "; every explored schedule is additionally checked by ThreadSanitizer vector clocks with scheduler hand-offs hidden"}
 }
+
+const ruleB = "explicit-state breadth-first search over histories of file operations and real CLI invocations (the task binary built from the working tree) on a real project directory; states are canonicalised (path, content hash, mtime order type, model) and deduplicated; every transition is one real invocation checked against the reference model"
+
+func init() {
+	for _, id := range []string{"C04", "C05", "C12"} {
+		props[id] = propCfg{Level: "model_checking", Rule: ruleB, QuickS: 200}
+	}
+}
